@@ -291,11 +291,15 @@ def proof_step(pid, thorough=False):
     m = re.search(r'File "\./Props/%s\.v", line (\d+)' % pid, log)
     res['failed_theorem'] = 'build:' + (m.group(0) if m else log[-300:])
     return res
-  rc, so, se, dt = _coqc(props, timeout=900)
-  for e in extra:
+  # the statement files are independent of one another: re-check them side by side
+  from concurrent.futures import ThreadPoolExecutor
+  with ThreadPoolExecutor(max_workers=max(1, min(NCPU, 1 + len(extra)))) as ex:
+    results = list(ex.map(lambda f: _coqc(f, timeout=900), [props] + extra))
+  rc, so, se, dt = results[0]
+  for rc2, so2, se2, dt2 in results[1:]:
     if rc == 0:
-      rc, so2, se, dt2 = _coqc(e, timeout=900)
-      so, dt = so + so2, dt + dt2
+      rc, se = rc2, se2
+      so, dt = so + so2, max(dt, dt2)
   res['props_s'] = round(dt, 1)
   if rc != 0:
     res['log'] = (so + se)[-3000:]
